@@ -113,6 +113,27 @@ def check_entries(ctx, t1, t2, res, verbose, cfg):
             bad("moved item does not resolve", p)
 
 
+def py_keys_ok(v):
+    """harness reading of Diff/TextFaithful.keys_ok (C09's guard on every dict key at any depth)"""
+    if isinstance(v, dict):
+        for k, x in v.items():
+            if isinstance(k, str) and (("'" in k and '"' in k) or k.endswith(chr(119232))):
+                return False
+            if isinstance(k, float) and not abs(k) < 2 ** 53:
+                return False
+            if isinstance(k, bytes) and (not all(32 <= ch <= 126 and ch != 92 for ch in k) or (b"'" in k and b'"' in k)):
+                return False
+            if not py_keys_ok(x):
+                return False
+        return True
+    if isinstance(v, (list, tuple)):
+        return all(py_keys_ok(x) for x in v)
+    return True
+
+
+GUARD_HDR = D.MODEL_HDR + "\nFrom DD Require Import Diff.TextFaithfulShow."
+
+
 def gen_pairs(ctx, n):
     rng = ctx.rng
     out = []
@@ -183,6 +204,16 @@ def one_pair(ctx, t1, t2, cases, corr=True):
                 ctx.fail(dict(t1=repr(t1), t2=repr(t2), clause="inputs modified", **cfg), "DeepDiff modified an input")
         elif corr:
             ctx.count("outside_model_guard")
+        if corr and D.in_model_guard(t1, t2) and thr == ctx.rng.choice(THRS):
+            # the TEXT view of the same run against Diff/TextView.v (what C04_text_* speak about), default alignment
+            for verbose in (1, 2):
+                tcase, r, _ = D.text_case(t1, t2, False, thr, verbose)
+                if tcase is not None:
+                    cases.append(tcase)
+                    ctx.count("text_view_case:verbose%d" % verbose)
+            g = py_keys_ok(t1) and py_keys_ok(t2)
+            ctx.count("hyp:C04_text guard (wf, keys_ok) holds" if g else "hyp:C04_text guard fails")
+            cases.append(("sx_c04_guard %s %s" % (V.to_coq(t1), V.to_coq(t2)), g, {"t1": repr(t1), "t2": repr(t2), "what": "guard of C04_text_*"}))
         for verbose in (1, 2):
             try:
                 res = DeepDiff(copy.deepcopy(t1), copy.deepcopy(t2), threshold_to_diff_deeper=thr, verbose_level=verbose)
@@ -213,7 +244,7 @@ def run(ctx):
         one_pair(ctx, t1, t2, cases)
     for c in cases[:3]:
         ctx.sample(c[2])
-    ctx.coq_cases("c04", D.MODEL_HDR, cases, shard=150, label="default_mode_tree")
+    ctx.coq_cases("c04", GUARD_HDR, cases, shard=150, label="default_mode_tree")
     replay_witnesses(ctx)
 
 
